@@ -71,6 +71,8 @@ class Z:
         return NotImplemented
 
     def __add__(self, o):
+        if _builtin_isinstance(o, complex):
+            return C(self, 0) + C.lift(o)
         if _is_num(o) and o == 0:
             return self
         return self._bin(o, lambda a, b: a + b)
@@ -83,6 +85,8 @@ class Z:
         return Z(_const(o) + self.t)
 
     def __sub__(self, o):
+        if _builtin_isinstance(o, complex):
+            return C(self, 0) - C.lift(o)
         if _is_num(o) and o == 0:
             return self
         return self._bin(o, lambda a, b: a - b)
@@ -95,6 +99,8 @@ class Z:
         return Z(_const(o) - self.t)
 
     def __mul__(self, o):
+        if _builtin_isinstance(o, complex):
+            return C(self, 0) * C.lift(o)
         if _is_num(o):
             if o == 0:
                 return 0
@@ -113,6 +119,8 @@ class Z:
         return Z(_const(o) * self.t)
 
     def __truediv__(self, o):
+        if _builtin_isinstance(o, complex):
+            return C(self, 0) / C.lift(o)
         if _is_num(o) and o == 1:
             return self
         return self._bin(o, lambda a, b: a / b)
